@@ -52,9 +52,18 @@ def QA(nvars, body, pats=None, force=False):
     ts = [t[0] if isinstance(t, tuple) else t for t in pats(*vs)]
     clean = all(z3.is_app(t) and t.decl().kind() == z3.Z3_OP_SELECT and not _mentions(t.arg(0), vs) and any(t.arg(1).eq(v) for v in vs) for t in ts)
     covered = all(any(t.arg(1).eq(v) for t in ts) for v in vs) if clean else False
-    if force or (clean and covered):
-        return z3.ForAll(vs, body(*vs), patterns=[z3.MultiPattern(*ts) if len(ts) > 1 else ts[0]])
+    if (force or (clean and covered)) and not any(_has_ite(t) for t in ts):
+        try:
+            return z3.ForAll(vs, body(*vs), patterns=[z3.MultiPattern(*ts) if len(ts) > 1 else ts[0]])
+        except z3.Z3Exception:
+            pass
     return z3.ForAll(vs, body(*vs))
+
+
+def _has_ite(e):
+    if z3.is_app(e) and e.decl().kind() == z3.Z3_OP_ITE:
+        return True
+    return any(_has_ite(c) for c in e.children())
 
 
 def _sum(xs):
@@ -266,12 +275,12 @@ class BlockCSR(Contract):
             # what the body left alone: the row pointers and the entries that existed at the head of this iteration
             o = S.inv_state
             keep1 = npext.lemma(cx, 'rows:step:rowptr-prefix-unchanged', QA(1, lambda p: z3.Implies(z3.And(0 <= p, p < o['RPn']), rowptr.sel(p) == o['RP'](p)), lambda p: [rowptr.sel(p)]),
-                                using=self.lf(), flatten=True)
+                                using=self.lf(), flatten=True, skolemize=True)
             hk = self.lf() + self.bf(R, 'rowptr-monotone', 'mono', 'zero')
             keep2 = npext.lemma(cx, 'rows:step:values-prefix-unchanged', QA(1, lambda q: z3.Implies(z3.And(0 <= q, q < o['ptr']), eq_elem(VAL.kind, VAL.sel(q), o['VAL'](q))), lambda q: [VAL.sel(q)]),
-                                using=hk, flatten=True)
+                                using=hk, flatten=True, skolemize=True)
             keep3 = npext.lemma(cx, 'rows:step:colidx-prefix-unchanged', QA(1, lambda q: z3.Implies(z3.And(0 <= q, q < o['ptr']), COL.sel(q) == o['COL'](q)), lambda q: [COL.sel(q)]),
-                                using=hk, flatten=True)
+                                using=hk, flatten=True, skolemize=True)
             small = self.bf(R, 'mono', 'rowptr-monotone', 'zero')
             for nm, f in parts:
                 key = nm.split('[')[0]
@@ -284,15 +293,28 @@ class BlockCSR(Contract):
                     else:
                         f_old, f_new = R.H(rowptr, COL, i - 1), R.H(rowptr, COL, i, lo=i - 1)
                         h_new = self.bf(R, 'colidx-strictly-increasing-per-row', 'colidx-below-ncols', 'colidx-nonnegative', 'rowptr-monotone', 'mono', 'zero')
-                    a = npext.lemma(cx, 'rows:step:%s:rows-before' % nm, f_old, using=[old[nm], old['rowptr-bounds'], keep1, keep2, keep3] + self.bf(R, 'rowptr-monotone', 'zero'), flatten=True)
-                    b = npext.lemma(cx, 'rows:step:%s:new-row' % nm, f_new, using=h_new + [old['rowptr']] + self.lf(), flatten=True)
-                    hints = [a, b]
+                    if key == 'entries':
+                        # quantifier-free: the instances of the old conjunct, of the three prefix lemmas and of the blocks'
+                        # monotonicity at this row that the step needs, at the Skolem constants of the goal
+                        def inst(p0, k0, ci=ci, nm=nm):
+                            q0 = R.pos(rowptr, ci, p0, k0)
+                            out = [(old[nm], (p0, k0)), (old['rowptr-bounds'], (p0,)), (old['rowptr-bounds'], (p0 + 1,)), (keep1, (p0,)), (keep1, (p0 + 1,)), (keep3, (q0,))]
+                            out += [(x, (q0,)) for x in npext._flatten([keep2])]
+                            out += [(c['wf']['rowptr-monotone'], (i - 1,)) for c in R.cols]
+                            return out
+                        a = npext.lemma(cx, 'rows:step:%s:rows-before' % nm, f_old, using=[], flatten=True, skolemize=True, instances=inst)
+                    else:
+                        a = npext.lemma(cx, 'rows:step:%s:rows-before' % nm, f_old, using=[old[nm], old['rowptr-bounds'], keep1, keep2, keep3] + self.bf(R, 'rowptr-monotone', 'zero'), flatten=True, skolemize=True)
+                    b = npext.lemma(cx, 'rows:step:%s:new-row' % nm, f_new, using=h_new + [old['rowptr']] + self.lf(), flatten=True, skolemize=True)
+                    # the two ranges together: quantifier-free, from the instances of both halves at the Skolem constants
+                    new.append((nm, npext.lemma(cx, 'rows:step:' + nm, f, using=[], flatten=True, skolemize=True, instances=lambda *cs, a=a, b=b: [(a, cs), (b, cs)])))
+                    continue
                 elif key in self.STEP_HINTS:
                     a, b = self.STEP_HINTS[key]
                     hints = [old[x] for x in a] + self.bf(R, *b) + self.lf()
                 else:
                     hints = small
-                new.append((nm, npext.lemma(cx, 'rows:step:' + nm, f, using=hints, flatten=True)))
+                new.append((nm, npext.lemma(cx, 'rows:step:' + nm, f, using=hints, flatten=True, skolemize=True)))
             parts = new
         f = z3.And(*[g for _, g in parts])
         if cx.inv_mode == 'assume':
@@ -336,7 +358,7 @@ class BlockCSR(Contract):
         S.clauses = []
         for R in S.rows:
             self.zero_lemmas(ctx, R)
-        L = lambda name, f, using=None: S.clauses.append((name, npext.lemma(ctx, name, f, using=using, flatten=True)))
+        L = lambda name, f, using=None: S.clauses.append((name, npext.lemma(ctx, name, f, using=using, flatten=True, skolemize=True)))
         L('shape', z3.And(RP.n == 1 + S.nrows_total, ncols == S.ncols), using=[])
         L('kind-of-values', z3.BoolVal(VAL.kind == S.kind), using=[])
         done = []  # (A, M) of the block rows before
@@ -349,13 +371,13 @@ class BlockCSR(Contract):
             prev = done[-2:] + self.lf()
             L('rowptr[%d]' % R.r, R.A(RP, R.nrows), using=ex('rowptr') + self.bf(R, 'zero') + prev)
             a = S.clauses[-1][1]
-            m = npext.lemma(ctx, 'rowptr-bounds[%d]' % R.r, R.M(RP, R.nrows, R.base + R.nnz), using=[a] + self.bf(R, 'mono', 'rowptr-monotone') + prev, flatten=True)
+            m = npext.lemma(ctx, 'rowptr-bounds[%d]' % R.r, R.M(RP, R.nrows, R.base + R.nnz), using=[a] + self.bf(R, 'mono', 'rowptr-monotone') + prev, flatten=True, skolemize=True)
             for ci in range(len(R.cols)):
                 L('entries[%d,%d]' % (R.r, ci), R.F(ci, VAL, RP, COL, R.nrows, R.base + R.nnz), using=ex('entries[%d]' % ci, 'rowptr-bounds') + [a, m] + self.bf(R, 'rowptr-monotone', 'zero') + prev)
             g = npext.lemma(ctx, 'colidx-range[%d]' % R.r, R.G(COL, ncols, R.base, R.base + R.nnz),
-                            using=ex('colidx-range') + [a, m] + self.bf(R, 'colidx-below-ncols', 'colidx-nonnegative', 'zero') + prev, flatten=True)
+                            using=ex('colidx-range') + [a, m] + self.bf(R, 'colidx-below-ncols', 'colidx-nonnegative', 'zero') + prev, flatten=True, skolemize=True)
             h = npext.lemma(ctx, 'colidx-increasing[%d]' % R.r, R.H(RP, COL, R.nrows),
-                            using=ex('colidx-increasing', 'rowptr-bounds') + [a, m] + self.bf(R, 'colidx-strictly-increasing-per-row', 'rowptr-monotone', 'zero') + prev, flatten=True)
+                            using=ex('colidx-increasing', 'rowptr-bounds') + [a, m] + self.bf(R, 'colidx-strictly-increasing-per-row', 'rowptr-monotone', 'zero') + prev, flatten=True, skolemize=True)
             done += [a, m]
             glob.append((R, a, m, g, h))
         A_all = [x[1] for x in glob]
@@ -384,11 +406,9 @@ class BlockCSR(Contract):
                 % (here, list(self.grid), json.dumps({k: v for k, v in (ob.model or {}).items() if not k.startswith('k!')}), ob.clause))
 
 
-GRIDS = [(1,), (2,), (1, 1), (1, 1, 1)]
-# written and generated, but NOT fully discharged within the per-obligation budget (a few `rows:step:*:rows-before` lemmas of the
-# three-block row loop stay `unknown`; 2+2 was not re-run after the last restructuring): kept out of contracts() so that the check
-# is green; see notes/C15-c15b.md
-UNFINISHED_GRIDS = [(3,), (2, 2)]
+GRIDS = [(1,), (2,), (1, 1), (3,), (1, 1, 1)]
+# written and generated but not registered: see notes/C15-c15b.md
+UNFINISHED_GRIDS = [(2, 2)]
 
 
 def contracts():
